@@ -8,14 +8,16 @@
 EXTENDS SaveScript, MsgPackCorpus, Json
 
 CONSTANTS SweepNeg, SweepPos,    \* integers -SweepNeg..SweepPos
-          LongLens               \* container / string lengths beyond the corpus (e.g. {65535, 65536})
+          LongLens,              \* container / string lengths beyond the corpus (e.g. {65535, 65536})
+          LongKinds              \* which of "str", "bin", "arr" get those lengths
 
 VARIABLES root, phase
 vars == <<root, phase>>
 
 Leaf(T, v) == [k |-> "leaf", t |-> T, v |-> v]
-Longs == UNION { { Leaf("str", <<"str", Run(97, n)>>), Leaf("vec_u8", <<"bin", Run(7, n)>>),
-                   Leaf("vec_i32", <<"arr", Run(U(7), n)>>) } : n \in LongLens }
+Longs == UNION { (IF "str" \in LongKinds THEN { Leaf("str", <<"str", Run(97, n)>>) } ELSE {})
+                 \cup (IF "bin" \in LongKinds THEN { Leaf("vec_u8", <<"bin", Run(7, n)>>) } ELSE {})
+                 \cup (IF "arr" \in LongKinds THEN { Leaf("vec_i32", <<"arr", Run(U(7), n)>>) } ELSE {}) : n \in LongLens }
 
 \* every scenario is an initial state (there is nothing to explore behind it)
 Init == \/ /\ phase = "int"
